@@ -114,6 +114,10 @@ func c10Child(tier string, seed int64) {
 		_ = os.WriteFile(filepath.Join(ctxDir, "context.jsonld"), []byte(ctxText), 0o644)
 		docs = append(docs, doc)
 	}
+	// a document that keeps one evaluation busy for a while (800 nodes with results): a round in which every goroutine
+	// validates it shares the processors among long evaluations
+	docs = append(docs, c09HugeDoc(800))
+	heavyDoc, heavyProfile := len(docs)-1, 10 // c05Profiles()[1] ("sets") sits at index 9+1
 	// a profile nested 3000 levels deep (cheap for the engine): whatever is counted per nesting level is counted concurrently
 	deep := "profile: c10 deep\nprefixes:\n  ex: http://ex.org/\nviolation:\n  - v\nvalidations:\n  v:\n    targetClass: ex.T\n    message: m\n    not: " +
 		strings.Repeat("{not: ", 3000) + "{propertyConstraints: {ex.x: {minCount: 1}}}" + strings.Repeat("}", 3000) + "\n"
@@ -221,6 +225,9 @@ func c10Child(tier string, seed int64) {
 			default:
 				op.Kind = pick(r, "validate", "compile", "compiled-cfg")
 				op.P, op.D, op.Cfg = r.Intn(len(profiles)), r.Intn(len(docs)), r.Intn(len(c10Cfgs))
+			}
+			if round == 5 || (!quick && round%24 == 17) {
+				op.Kind, op.P, op.D, op.Cfg = pick(r, "validate", "compiled"), heavyProfile, heavyDoc, 0 // long evaluations only
 			}
 			ops[i] = op
 		}
